@@ -750,6 +750,9 @@ pub fn make(prop: &str) -> Option<SCheck> {
                 update_mix: true,
                 zero: true,
                 zero_pct: 40,
+                // orders whose own price field differs from the level's: "a price different
+                // from the level's" is about the level, whatever the order carries
+                offprice: true,
                 ..d
             },
             nontrivial: |o| {
